@@ -45,6 +45,19 @@ func place(name, arg, side string, want string, b []byte) []byte {
 	if side == "tail" {
 		return arena(name).Tail(b)
 	}
+	var k int
+	if n, _ := fmt.Sscanf(side, "gap%d", &k); n == 1 {
+		// ends k bytes before the inaccessible page: an over-read of up to k bytes goes unnoticed, a longer one faults
+		return arena(name).TailGap(b, k)
+	}
+	if n, _ := fmt.Sscanf(side, "cross%d", &k); n == 1 {
+		// ends k bytes after (k < 0: before) the boundary between the two accessible pages of the arena
+		off := guard.Page + k - len(b)
+		if off < 0 {
+			off = 0
+		}
+		return arena(name).At(b, off)
+	}
 	return arena(name).Head(b)
 }
 
@@ -73,11 +86,13 @@ func c11eval(r *vx.R, c c11case) {
 		if c.Arg == "dst" {
 			// destination with exactly the needed capacity, ending (tail) or starting (head) at a guard page
 			d := make([]byte, len(want))
-			if c.Side == "tail" {
-				dst = arena("dst").Tail(d)[:0]
-			} else {
-				dst = arena("dst").Head(d)[:0]
-			}
+			dst = place("dst", "dst", c.Side, "dst", d)[:0]
+		}
+		var roomy []byte
+		if c.Arg == "dstroomy" {
+			// destination with 48 bytes more capacity than needed: what lies behind the result stays the caller's
+			roomy = bytes.Repeat([]byte{0xA5}, len(want)+48)
+			dst = roomy[:0]
 		}
 		var out []byte
 		var oerr error
@@ -93,7 +108,7 @@ func c11eval(r *vx.R, c c11case) {
 			if c.PtLen%16 != 0 {
 				cls = "partial-block"
 			}
-			r.Violation(fmt.Sprintf("mem:%s:fault:%s-at-%s:%s", c.Op, c.Arg, c.Side, cls), fmt.Sprintf("%s touched memory outside its arguments: %s (pt/ct %d bytes, aad %d, nonce %d, tag %d; %s placed at the %s of mapped memory)", c.Op, msg, len(in), c.AadLen, c.NLen, c.Tag, c.Arg, c.Side), c)
+			r.Violation(fmt.Sprintf("mem:%s:fault:%s-at-%s:%s", c.Op, c.Arg, sideClass(c.Side), cls), fmt.Sprintf("%s touched memory outside its arguments: %s (pt/ct %d bytes, aad %d, nonce %d, tag %d; %s placed at the %s of mapped memory)", c.Op, msg, len(in), c.AadLen, c.NLen, c.Tag, c.Arg, c.Side), c)
 			return
 		}
 		if kind != "" {
@@ -102,6 +117,14 @@ func c11eval(r *vx.R, c c11case) {
 		}
 		if oerr != nil || !bytes.Equal(out, want) {
 			r.Violation("mem:"+c.Op+":wrong-result", fmt.Sprintf("%s returned a wrong result with %s at the %s of mapped memory (err=%v)", c.Op, c.Arg, c.Side, oerr), c)
+		}
+		if roomy != nil && len(out) > 0 && &out[0] == &roomy[0] {
+			for i := len(out); i < len(roomy); i++ {
+				if roomy[i] != 0xA5 {
+					r.Violation(fmt.Sprintf("mem:%s:writes-behind-result:tag%d", c.Op, c.Tag), fmt.Sprintf("%s wrote %d byte(s) behind its %d-byte result into the spare capacity of dst (tag size %d)", c.Op, i-len(out)+1, len(out), c.Tag), c)
+					break
+				}
+			}
 		}
 		shape += fmt.Sprintf(":pt%d:aad%d:n%d:t%d", c.PtLen, c.AadLen, c.NLen, c.Tag)
 	case "open-short":
@@ -223,7 +246,7 @@ func b2i(b bool) int {
 }
 
 func TestVX_C11(t *testing.T) {
-	r := vx.Begin("C11", gcmPart("guard-public"), "every slice argument of Seal/Open (plaintext/ciphertext, aad, nonce, dst) and of Encrypt/Decrypt/NewCipher placed so that it ends exactly at (tail) or starts exactly after (head) an inaccessible page (mmap + PROT_NONE, faults turned into panics carrying Addr()): plaintext/ciphertext lengths 0..1100, aad lengths 0..1100, nonce lengths 1..300, tags 12..16; misuse: Encrypt/Decrypt with len(src) or len(dst) in 0..15 flush against a guard page and between canaries; Open of every ciphertext shorter than the tag (tags 12..16) flush against a guard page before and after, with nil and roomy dst. Oracle: no fault, no damaged canary; valid calls still equal the reference; misuse ends in a Go panic")
+	r := vx.Begin("C11", gcmPart("guard-public"), "every slice argument of Seal/Open (plaintext/ciphertext, aad, nonce, dst) and of Encrypt/Decrypt/NewCipher placed so that it ends exactly at (tail) or starts exactly after (head) an inaccessible page (mmap + PROT_NONE, faults turned into panics carrying Addr()): plaintext/ciphertext lengths 0..1100, aad lengths 0..1100, nonce lengths 1..300, tags 12..16; the same arguments ending 1..16 bytes before the inaccessible page and -15..15 bytes around the boundary between two accessible pages (lengths 1..48, 63..65, 100, 257); misuse: Encrypt/Decrypt with len(src) or len(dst) in 0..15 flush against a guard page and between canaries; Open of every ciphertext shorter than the tag (tags 12..16) flush against a guard page before and after, with nil and roomy dst. a destination with 48 spare bytes keeps them; Oracle: no fault, no damaged canary; valid calls still equal the reference; misuse ends in a Go panic")
 	defer r.End()
 	selfCheck()
 	if raw, ok := vx.Replay(gcmPart("guard-public")); ok {
@@ -259,6 +282,10 @@ func TestVX_C11(t *testing.T) {
 				run(c11case{Op: "open", Arg: "ct", Side: side, PtLen: l, AadLen: 5, NLen: 12, Tag: tag})
 				run(c11case{Op: "seal", Arg: "dst", Side: side, PtLen: l, AadLen: 5, NLen: 12, Tag: tag})
 				run(c11case{Op: "open", Arg: "dst", Side: side, PtLen: l, AadLen: 5, NLen: 12, Tag: tag})
+				if side == "tail" && (l <= 300 || th) {
+					run(c11case{Op: "seal", Arg: "dstroomy", Side: side, PtLen: l, AadLen: 5, NLen: 12, Tag: tag})
+					run(c11case{Op: "open", Arg: "dstroomy", Side: side, PtLen: l, AadLen: 5, NLen: 12, Tag: tag})
+				}
 			}
 			run(c11case{Op: "seal", Arg: "aad", Side: side, PtLen: 33, AadLen: l, NLen: 12, Tag: 16})
 			run(c11case{Op: "open", Arg: "aad", Side: side, PtLen: 33, AadLen: l, NLen: 12, Tag: 16})
@@ -272,6 +299,38 @@ func TestVX_C11(t *testing.T) {
 			run(c11case{Op: op, Arg: "dst", Side: side})
 		}
 		run(c11case{Op: "newcipher", Arg: "key", Side: side})
+	}
+	// placements at every distance 1..16 from the inaccessible page, and across the boundary between two accessible pages
+	// at every offset -15..15 (code that switches to a "safe" path next to a page boundary): short lengths, where partial
+	// blocks and their staging live
+	var sides []string
+	for g := 1; g <= 16; g++ {
+		sides = append(sides, fmt.Sprintf("gap%d", g))
+	}
+	for k := -15; k <= 15; k++ {
+		sides = append(sides, fmt.Sprintf("cross%d", k))
+	}
+	lens := []int{}
+	for l := 1; l <= 48; l++ {
+		lens = append(lens, l)
+	}
+	lens = append(lens, 63, 64, 65, 100, 257)
+	for _, side := range sides {
+		for _, l := range lens {
+			if !th && l > 34 && l < 48 {
+				continue
+			}
+			for _, tag := range []int{16, 13} {
+				run(c11case{Op: "seal", Arg: "pt", Side: side, PtLen: l, AadLen: 5, NLen: 12, Tag: tag})
+				run(c11case{Op: "open", Arg: "ct", Side: side, PtLen: l, AadLen: 5, NLen: 12, Tag: tag})
+				run(c11case{Op: "seal", Arg: "dst", Side: side, PtLen: l, AadLen: 5, NLen: 12, Tag: tag})
+			}
+			run(c11case{Op: "seal", Arg: "aad", Side: side, PtLen: 33, AadLen: l, NLen: 12, Tag: 16})
+			run(c11case{Op: "open", Arg: "aad", Side: side, PtLen: 20, AadLen: l, NLen: 12, Tag: 16})
+			if l <= 48 && l != 12 {
+				run(c11case{Op: "seal", Arg: "nonce", Side: side, PtLen: 17, AadLen: 3, NLen: l, Tag: 16})
+			}
+		}
 	}
 	for tag := 12; tag <= 16; tag++ {
 		for l := 0; l < tag; l++ {
@@ -287,4 +346,14 @@ func TestVX_C11(t *testing.T) {
 			run(c11case{Op: op, SrcLen: l, DstLen: l})
 		}
 	}
+}
+
+// sideClass drops the distance from a gapN / crossK placement (violation keys are per placement class).
+func sideClass(s string) string {
+	for i, ch := range s {
+		if ch == '-' || (ch >= '0' && ch <= '9') {
+			return s[:i]
+		}
+	}
+	return s
 }
